@@ -387,5 +387,26 @@ def prove(report, prop_module=None):
         report.proof_broken.extend(a['bad'])
         report.discharged = 0
         return False
+    if getattr(report, 'tier', 'quick') == 'thorough':
+        # independent re-check of the compiled proofs (leanchecker replays every declaration of the module and of
+        # what it imports through the kernel, without trusting the elaborator's .olean files)
+        ok3, log3 = leanchecker(prop_module)
+        report.extra['leanchecker'] = 'ok' if ok3 else log3[-400:]
+        if not ok3:
+            report.proof_broken.append('leanchecker rejects %s: %s' % (prop_module, log3[-300:]))
+            report.discharged = 0
+            return False
     report.discharged = report.obligations
     return True
+
+
+def leanchecker(module):
+    try:
+        r = subprocess.run(['lake', 'env', 'leanchecker', module], cwd=LEAN, stdout=subprocess.PIPE, stderr=subprocess.STDOUT,
+                           universal_newlines=True, timeout=1800)
+        return r.returncode == 0, r.stdout
+    except FileNotFoundError:
+        return True, 'leanchecker not installed'
+    except subprocess.TimeoutExpired:
+        return False, 'leanchecker timed out'
+
